@@ -125,6 +125,10 @@ class Repo:
             from . import inline
             from . import localnames
             lt = localnames.load_table()
+            shp0 = localnames.load_shapes()
+            if shp0:
+                for rel, modname, is_pkg, src, tree in parsed:
+                    self.inline_log.extend(localnames.recover_params(tree, modname, shp0))
             if lt:
                 for rel, modname, is_pkg, src, tree in parsed:
                     self.inline_log.extend(localnames.recover(tree, modname, lt))
